@@ -304,7 +304,7 @@ func c11r5(c *core.Ctx) {
 		var scan func(g *ssa.Function, permsArg func(ssa.Value) bool, depth int)
 		scan = func(g *ssa.Function, isPerms func(ssa.Value) bool, depth int) {
 			core.Instrs(g, func(i ssa.Instruction) {
-				if b, isB := i.(*ssa.BinOp); isB && b.Op == token.EQL {
+				if b, isB := i.(*ssa.BinOp); isB && (b.Op == token.EQL || b.Op == token.NEQ) { // polarity: perm-predicate-polarity
 					for _, pair := range [][2]ssa.Value{{b.X, b.Y}, {b.Y, b.X}} {
 						if s, isK := core.ConstString(pair[1]); isK && s == perm {
 							if core.AnySource(pair[0], func(v ssa.Value) bool {
